@@ -1209,6 +1209,9 @@ class PhasedVcfWriter(VcfAugmenter):
             else:
                 continue
 
+            if self.tag == "HP":
+                self._make_missing_hp_explicit(record)
+
             # Set phase tag for all target samples
             for sample in sample_superreads:
                 call: VariantRecordSample = record.samples[sample]
@@ -1260,19 +1263,39 @@ class PhasedVcfWriter(VcfAugmenter):
                     self._set_phasing_tags(call, components[pos], phases[pos], haploid_component)
                 else:
                     # Unphased
-                    call[self.tag] = None
+                    call[self.tag] = None if self.tag == "PS" else "."
             prev_pos = pos
         return genotype_changes
 
+    @staticmethod
+    def _make_missing_hp_explicit(record: VariantRecord):
+        """
+        Give every sample without an HP value the explicit missing value ".". Whenever the HP of
+        one sample is assigned, pysam re-encodes the HP strings of all samples of the record and
+        writes an empty string or even a NUL byte for those that have none.
+        """
+        for call in record.samples.values():
+            hp = call.get("HP")
+            if not hp or any(x is None or x == "." for x in hp):
+                call["HP"] = "."
+
     def _remove_existing_phasing(self, record: VariantRecord, samples: Iterable[str]):
-        if self.tag == "PS":
+        """Remove all phase information (GT phasing, PS, HP, PQ) of the given samples"""
+        samples = list(samples)
+        if samples and "HP" in record.format:
             for sample in samples:
-                call = record.samples[sample]
-                if "GT" not in call:
-                    continue
-                call.phased = False
-                if call["GT"] is not None and all(allele is not None for allele in call["GT"]):
-                    call["GT"] = sorted(call["GT"])
+                record.samples[sample]["HP"] = "."
+            self._make_missing_hp_explicit(record)
+        for sample in samples:
+            call = record.samples[sample]
+            for tag in ("PS", "PQ"):
+                if tag in record.format:
+                    call[tag] = None
+            if "GT" not in call:
+                continue
+            call.phased = False
+            if call["GT"] is not None and all(allele is not None for allele in call["GT"]):
+                call["GT"] = sorted(call["GT"])
 
 
 def genotype_code(gt: Optional[Tuple[Optional[int], ...]]) -> Genotype:
